@@ -250,6 +250,12 @@ func (db *DB) loadSchema(of Object) (s *Schema, err error) {
 			}
 		}
 
+		// objects are stored in files of the collection's directory
+		if s.Extension != "" && (s.Extension != filepath.Base(s.Extension) || s.Extension == "..") {
+			err = fmt.Errorf("%w: extension %q is not a file extension", ErrMalformedSchema, s.Extension)
+			return
+		}
+
 		// we initialize schema from object
 		if err = s.initialize(db, of); err != nil {
 			return
